@@ -1467,10 +1467,11 @@ theorem initState_preBalance (parts : List (Topic × List Nat)) (members : List 
   obtain ⟨f1, f2, f3, f4, f5, f6, f7⟩ := hf
   have hcore0 := initState_ownCore parts members oracle
   have hp2c : (keysOf (initState parts members oracle).p2c).Nodup := by
-    have : keysOf (initState parts members oracle).p2c
-        = parts.flatMap (fun tps => tps.2.map (fun p => ((tps.1, p) : TP))) := by
-      unfold initState keysOf; simp [List.map_map, Function.comp_def]; rfl
-    rw [this]; exact allTps_nodup parts hparts hps
+    have : keysOf (initState parts members oracle).p2c = subscribedTps parts members := by
+      unfold initState keysOf; simp [List.map_map, Function.comp_def]
+    rw [this]
+    unfold subscribedTps
+    exact List.Nodup.sublist List.filter_sublist (allTps_nodup parts hparts hps)
   have hsorted := populateSorted_nodup (initState parts members oracle) hp2c hcore0.1
   generalize hs1 : populateSortedPartitions (initState parts members oracle) = s1 at *
   have hcore1 : OwnCore s1.cur s1.owner := by rw [f1, f2]; exact hcore0.1
